@@ -173,6 +173,7 @@ def inject(prog, kind, rng, place, order, pos):
     elif kind.startswith("name:"):
         _, k1, k2 = kind.split(":")
         nm = f"XN{u}"
+        struct_alias = prog.get("use_core", True) and rng.random() < 0.5
 
         def entry(k, tag):
             if k == "constants":
@@ -180,7 +181,8 @@ def inject(prog, kind, rng, place, order, pos):
             if k == "string_constants":
                 return f"  {nm}: 'text{tag}'"
             if k == "aliases":
-                return f"  {nm}: int32"
+                # (half of them alias a struct - of the core definitions, which every file sees - instead of a native type)
+                return f"  {nm}: {'RTMA_MSG_HEADER' if struct_alias else 'int32'}"
             if k == "struct_defs":
                 return f"  {nm}:\n    fields:\n      q{tag}: int32"
             return f"  {nm}:\n    id: {base + (0 if tag == 'a' else 1)}\n    fields:\n      q{tag}: int32"
